@@ -164,9 +164,26 @@ var c04Funcs = []string{
 	"func mkbig(n) {a = []; for i = n {a = a + [i]}; a}",
 	"func mkbigm(n) {m = {}; for i = n {m[i] = i}; m}",
 	"func lg(x) {log(\"hi\", x); x}",
+	"func hd(a) {first(a) / 2}",
+	"func ty(a) {[type(a), len(a), a]}",
+	"func idn(a) {println(a); [a, a == 1, a == [1]]}",
 	"func tri(n) {image.move_to(\"ci\", 0, 0); image.line_to(\"ci\", 7, 0); image.line_to(\"ci\", 0, 7); image.close_path(\"ci\"); image.draw(\"ci\", [255, 0, 0]); n}",
 	"func px(n) {image.set(\"ci\", n, n, [0, 255, 0]); n}",
 }
+
+var c04Fixed = [][]string{
+	// a name used through eval() becomes a macro
+	{"func foo(x) {x + 1}", "func fe(s) {eval(s)}", `fe("foo(2)")`, "foo = macro(x) {quote(unquote(x) * 10)}", `fe("foo(2)")`, `fe("foo(2)")`},
+	{"mm = macro(x) {quote(unquote(x) + 1)}", "func fe(s) {eval(s)}", `fe("mm(2)")`, "mm = macro(x) {quote(unquote(x) + 100)}", `fe("mm(2)")`},
+	{"func fe(s) {eval(s)}", `catch(fe("later(2)")).err`, "later = macro(x) {quote(unquote(x) * 2)}", `fe("later(2)")`, "func later2(x) {x}", `catch(fe("later3(2)")).err`, "func later3(x) {x + 3}", `fe("later3(2)")`},
+	// a name used through eval()/unjson()/defun becomes something else
+	{"func fe(s) {eval(s)}", "gq = 1", `fe("gq + 1")`, "gq = 5", `fe("gq + 1")`, "del(gq)", `catch(fe("gq + 1")).err`},
+	{"func fd(n) {defun(\"dd\", [\"x\"], [\"x + \" + str(n)]); dd(1)}", "fd(1)", "fd(2)", "fd(1)", "dd(5)"},
+}
+
+var c04Alike = []string{"[1,2,3,4,5,6,7,8,9]", "[1.0,2,3,4,5,6,7,8,9]", "[1,2,3,4,5,6,7,8,9.0]", "\"[1,2,3,4,5,6,7,8,9]\"", "[1,2,3,4,5,6,7,8,\"9\"]", "[1,2,3,4,5,6,7,8,[9]]",
+	"{\"a\":1,\"b\":2,\"c\":3,\"d\":4,\"e\":5}", "{\"a\":1.0,\"b\":2,\"c\":3,\"d\":4,\"e\":5}", "\"{\\\"a\\\":1,\\\"b\\\":2,\\\"c\\\":3,\\\"d\\\":4,\\\"e\\\":5}\"", "{\"a\":1,\"b\":2,\"c\":3,\"d\":4,\"e\":\"5\"}",
+	"[1]", "[1.0]", "\"[1]\"", "1", "1.0", "\"1\"", "nil", "\"nil\"", "[nil]", "[\"nil\"]", "{1:1}", "{1.0:1}", "{\"1\":1}"}
 
 var c04Args = []string{"0", "1", "2", "3", "1.0", "0.0", "(-0.0)", "[0.0]", "[(-0.0)]", "\"a\"", "[1]", "[1,2,3,4,5,6,7,8,9]", "{\"k\":1}", "nil", "true"}
 
@@ -188,7 +205,7 @@ func (p c04) session(c *fw.Ctx) []string {
 	}
 	n := 10 + r.IntN(40)
 	for k := 0; k < n; k++ {
-		switch r.IntN(55) {
+		switch r.IntN(59) {
 		case 0:
 			in = append(in, "p1("+small()+", "+small()+")")
 		case 1:
@@ -303,6 +320,14 @@ func (p c04) session(c *fw.Ctx) []string {
 		case 47:
 			in = append(in, "image.new(\"ci\", 8, 8); tri(1); p1 = image.png(\"ci\"); image.new(\"ci\", 8, 8); tri(1); p2 = image.png(\"ci\"); p1 == p2",
 				"image.new(\"ci\", 8, 8); px(1); q1 = image.png(\"ci\"); image.new(\"ci\", 8, 8); px(1); q2 = image.png(\"ci\"); q1 == q2")
+		case 58: // functions that differ only by parentheses that matter (float arithmetic is not associative): not one function
+			in = append(in, "fa = () => 0.1 + (0.2 + 0.3); fb = () => 0.1 + 0.2 + 0.3; [fa(), fb(), fa(), fb()]", "ga = x => x * (0.1 * 3.0); gb = x => x * 0.1 * 3.0; [ga(7.0), gb(7.0), ga(7.0)]",
+				"ha = x => x - (1 - 2); hb = x => x - 1 - 2; [ha(5), hb(5)]", "ia = (x, y) => [x] + (y + 1); ib = (x, y) => [x] + y + 1; [ia(1, 2), ib(1, 2)]")
+		case 55, 56, 57: // arguments that print alike but are different values (an array and its text, 1 and 1.0 inside a large container)
+			f := []string{"hd", "ty", "arr", "idn"}[r.IntN(4)]
+			for k := 2 + r.IntN(4); k > 0; k-- {
+				in = append(in, f+"("+c04Alike[r.IntN(len(c04Alike))]+")")
+			}
 		default:
 			in = append(in, "w2("+small()+") + w3("+small()+")")
 		}
@@ -358,6 +383,14 @@ func (p c04) RunBatch(c *fw.Ctx) {
 			c.Violate("random-memoized", "random-memoized", c04Case{Inputs: []string{"func rnd() {rand(1 << 60)}; func wr() {rnd() + 0}", "wr() x20"}}, "20 calls of a wrapper around rand(1<<60) all returned the same value")
 		}
 		c.Count("statistical_rand_distinct", int64(len(seen)))
+	}
+	// fixed sessions: what a memoized call depended on changes in a way that is not an assignment
+	for i, in := range c04Fixed {
+		if i%c.NBatches == c.Batch {
+			c.Begin(c04Case{Inputs: in})
+			p.compare(c, in)
+			c.Count("fixed_sessions", 1)
+		}
 	}
 	// every extension wrapped in a function, called before and after the world outside the interpreter changes (fresh child processes)
 	if c.Batch == 1%c.NBatches {
